@@ -195,8 +195,8 @@ theorem trail_exact_load {W : World} (hW : LeafReportsInput W) {m : DebugTrail} 
       rcases trail_loadTuple_err h with ⟨_, rfl⟩ | ⟨_, _, rfl⟩ | ⟨_, xs, hi, harity⟩
       · exact trail_exact_leaf _ _
       · exact trail_exact_leaf _ _
-      · have hshown : tupleShown ⟨m, s⟩ d xs = Val.tuple xs := by
-          cases m <;> simp [tupleShown] at hm ⊢
+      · have hshown : trailTupleShown ⟨m, s⟩ d xs = Val.tuple xs := by
+          cases m <;> simp [trailTupleShown] at hm ⊢
         rcases harity with ⟨_, rfl⟩ | ⟨_, rfl⟩ | ⟨_, hseq⟩
         · rw [hshown]
           exact .mk (x := d) rfl (Or.inr ⟨Or.inl rfl, xs, hi, rfl⟩) (by simp)
